@@ -118,6 +118,10 @@ func Load(repo string, harnessDir string, cfg Config) (*Engine, error) {
 			dst = filepath.Join(repo, "cmd", "desync", "zz_verif_"+base)
 		}
 		overlay[dst] = b
+		if base == "verif_api.go" {
+			// the same API for harnesses of package main (cmd/desync)
+			overlay[filepath.Join(repo, "cmd", "desync", "zz_verif_verif_api.go")] = []byte(strings.Replace(string(b), "package desync", "package main", 1))
+		}
 	}
 	pcfg := &packages.Config{
 		Mode:    packages.LoadAllSyntax,
